@@ -74,12 +74,14 @@ type Exec struct {
 	log       []string
 
 	// C13 bookkeeping
-	createdNames map[string]int
-	idBase       map[uint64]uint64
-	maxIDCreated uint64
-	lastNextID   uint64
-	committed    *types.PersistentState
-	rotCommits   int // CommitState calls by the rotator that succeeded in this lifetime
+	createdNames  map[string]int
+	idBase        map[uint64]uint64
+	maxIDCreated  uint64
+	lastNextID    uint64
+	committed     *types.PersistentState
+	prevCommitted *types.PersistentState
+	inOpen        bool
+	rotCommits    int // CommitState calls by the rotator that succeeded in this lifetime
 
 	// per-lifetime handles
 	w       *wal.WAL
@@ -92,8 +94,8 @@ type Exec struct {
 	curOp   int
 
 	protected  map[uint64]*model.Entry // acknowledged entries not covered by any issued DeleteRange
-	batches    map[uint64]uint64 // last index of an acked batch -> first index (C09 commit boundaries)
-	retained   []retainedRead    // C12 aliasing: GetLog results kept for later re-verification
+	batches    map[uint64]uint64       // last index of an acked batch -> first index (C09 commit boundaries)
+	retained   []retainedRead          // C12 aliasing: GetLog results kept for later re-verification
 	sigParts   []string
 	caseSeq    []string
 	ackedApp   int
@@ -323,6 +325,23 @@ func (ex *Exec) noteCreate(name string) {
 	}
 }
 
+// sealsTail: the unsealed tail of prev is sealed in cur and cur has a new tail.
+func (ex *Exec) sealsTail(prev, cur *types.PersistentState) bool {
+	if prev == nil || len(prev.Segments) == 0 || len(cur.Segments) < 2 {
+		return false
+	}
+	pt := prev.Segments[len(prev.Segments)-1]
+	if !pt.SealTime.IsZero() {
+		return false
+	}
+	for _, s := range cur.Segments[:len(cur.Segments)-1] {
+		if s.ID == pt.ID && !s.SealTime.IsZero() {
+			return true
+		}
+	}
+	return false
+}
+
 func (ex *Exec) noteCommit(st types.PersistentState) {
 	cp := st
 	cp.Segments = append([]types.SegmentInfo(nil), st.Segments...)
@@ -331,9 +350,14 @@ func (ex *Exec) noteCommit(st types.PersistentState) {
 		ex.violate("segment-id-unique", "next-segment-id-decreased", "NextSegmentID went from %d to %d", ex.lastNextID, st.NextSegmentID)
 	}
 	ex.lastNextID = st.NextSegmentID
-	if t := ex.sim.Current(); t != nil && t.Name == "rotator" {
+	// A rotation is the metadata commit that seals the tail and names its
+	// successor outside of a DeleteRange/StoreLogs call of the caller: it is made
+	// by the background rotation task, or by Open when it completes a rotation
+	// that was pending when the previous process stopped.
+	if t := ex.sim.Current(); t != nil && (t.Name == "rotator" || (ex.inOpen && ex.sealsTail(ex.prevCommitted, &cp))) {
 		ex.rotCommits++
 	}
+	ex.prevCommitted = &cp
 }
 
 // ---------------------------------------------------------------- generations
@@ -548,6 +572,11 @@ func (ex *Exec) openWAL(g *Gen, codecID uint64, segSize int) (*wal.WAL, error) {
 	ex.mc = metrics.NewAtomicCollector(wal.MetricDefinitions)
 	ex.want = map[string]uint64{}
 	ex.rotCommits = 0
+	if st, ok := ex.persistedState(); ok {
+		ex.prevCommitted = &st
+	}
+	ex.inOpen = true
+	defer func() { ex.inOpen = false }()
 	var w *wal.WAL
 	var err error
 	sf := segment.NewFiler(dir, vfs)
@@ -992,6 +1021,19 @@ func (ex *Exec) doAppend(op OpSpec) {
 	ex.logf("op %d StoreLogs[%d..%d] n=%d %s -> %v", ex.curOp, start, idx-1, n, bad, err)
 	if ex.stop() {
 		return
+	}
+	for _, e := range es {
+		switch {
+		case e.Size >= 64<<20-40 && err == nil:
+			ex.probes.Add("append_near_64MiB_acked", 1)
+		case e.Size >= 64<<20-40:
+			ex.probes.Add("append_over_64MiB_refused", 1)
+		case e.Size >= 65536-40 && err == nil:
+			ex.probes.Add("append_ge_64KiB_acked", 1)
+		}
+		if e.Size >= ex.cfg.SegSize && err == nil {
+			ex.probes.Add("append_larger_than_segment_acked", 1)
+		}
 	}
 	if err == nil {
 		ex.want["log_appends"]++
